@@ -27,6 +27,9 @@ LIB = [
     # twins of one-component standard packages (their unique name never grows)
     ("z/io", "io", False), ("w/io", "io", False), ("z/time", "time", False), ("z/os", "os", False),
     ("z/log", "log", False), ("w/deep/log", "log", False), ("z/stdlog", "stdlog", False),
+    # package name differs from the directory; two of them share the name, so conflict resolution
+    # hands out the directory names (= path.Base of the import path) as aliases
+    ("p/storedir", "db", False), ("q/cachedir", "db", False),
     # an element that merely ends in "vendor"
     ("multivendor/qux", "qux", False), ("q/myvendor/pkgs/qux", "qux", False),
     # adversarial
@@ -109,7 +112,7 @@ METHOD_NAMES = ["Get", "Set", "Do", "Run", "Close", "Put", "List", "One", "Two",
 ADV_METHOD_NAMES = ["GetCalls", "ResetCalls", "ResetGetCalls", "Func"]
 PLAIN_NAMES = ["a", "b", "c", "ctx", "name", "key", "val", "x", "y", "in", "out", "req", "opts",
                "first_arg", "arg2", "Upper", "mixedCase", "x1", "_x"]
-TRICKY_NAMES = ["s", "s1", "s2", "n", "n1", "err", "foo", "bar", "baz", "sync", "v", "fn",
+TRICKY_NAMES = ["userID", "userId", "apiKey", "apikey", "_key", "key", "_ctx", "s", "s1", "s2", "n", "n1", "err", "foo", "bar", "baz", "sync", "v", "fn",
                 "sOut", "nOut", "errOut", "fooMoqParam", "sMoqParam", "alpha", "beta", "http",
                 "id", "ID", "Id", "url", "URL", "Url", "uRL", "http2", "json", "JSON", "uuid", "Uuid",
                 "xsrf", "api", "Api", "acl", "ascii", "cpu", "css", "dns", "eof", "guid", "html",
@@ -414,7 +417,9 @@ class SrcGen:
                         body.append("var _ %s.T\n" % al)
                         self.quals.add(al)
             r.shuffle(imps)
-            text = "package %s\n\n" % self.clause
+            # some files carry a build constraint that holds on every platform the checks run on
+            cons = "//go:build !plan9\n\n" if r.random() < 0.12 else ""
+            text = cons + "package %s\n\n" % self.clause
             if imps or extra:
                 text += "import (\n" + "".join("\t%s\n" % i for i in imps + extra) + ")\n\n"
             text += "\n".join(body)
@@ -764,6 +769,15 @@ def configs_for(rnd, case, k):
                 args.append(x + ":" + rnd.choice(["My%s", "%sStub", "Fake%s", "%sDouble"]) % x)
             else:
                 args.append(x)
+        # the same interface twice under different mock names
+        if ifs and rnd.random() < 0.06:
+            x = rnd.choice(ifs)
+            args.insert(rnd.randrange(len(args) + 1), x + ":" + rnd.choice(["Second%s", "%sTwin"]) % x)
+        # a mock type named like a parameter (an unexported type in the destination package)
+        if ifs and rnd.random() < 0.05:
+            k = rnd.randrange(len(args))
+            if ":" not in args[k]:
+                args[k] = args[k] + ":" + rnd.choice(["ctx", "key", "val", "name", "req", "opts", "handler", "in", "out"])
         # an argument moq must reject, at a random position: unknown name, or a non-interface
         if rnd.random() < 0.05:
             args.insert(rnd.randrange(len(args) + 1), rnd.choice(["Nope", "T", "N", "nope:Fake"]))
